@@ -635,7 +635,11 @@ func (or Or) Match(m *Matcher, node any) (any, bool) {
 }
 
 func (not Not) Match(m *Matcher, node any) (any, bool) {
+	// Bindings made by the operand must never be observable: if the operand
+	// matches, Not fails, and if it fails, its partial bindings are void.
+	m.push()
 	_, ok := match(m, not.Node, node)
+	m.pop()
 	if ok {
 		return nil, false
 	}
